@@ -3,6 +3,7 @@ package main
 import (
 	"fmt"
 	"go/types"
+	"golang.org/x/tools/go/ssa"
 	"os"
 	"sort"
 )
@@ -112,4 +113,40 @@ func debugLoops(repo string) {
 		}
 	}
 	fmt.Println("loops", total, "early exits", n)
+}
+
+// debugDeadParams lists parameters (other than *Context and receivers) of rulio functions that have no use at all.
+func debugDeadParams(repo string) {
+	w := loadWorld(repo, false)
+	n := 0
+	for _, fn := range w.Funcs {
+		if isTestFile(w, fn) || fn.Synthetic != "" || fn.Parent() != nil {
+			continue
+		}
+		for i, p := range fn.Params {
+			if i == 0 && fn.Signature.Recv() != nil {
+				continue
+			}
+			if p.Name() == "_" || p.Name() == "" {
+				continue
+			}
+			if pt, ok := p.Type().(*types.Pointer); ok && isNamed(pt.Elem(), modPath+"/core", "Context") {
+				continue
+			}
+			refs := p.Referrers()
+			used := false
+			if refs != nil {
+				for _, r := range *refs {
+					if _, isDbg := r.(*ssa.DebugRef); !isDbg {
+						used = true
+					}
+				}
+			}
+			if !used {
+				n++
+				fmt.Printf("%-60s %s %s\n", fname(fn), p.Name(), w.Pos(fn.Pos()))
+			}
+		}
+	}
+	fmt.Println("dead params", n)
 }
